@@ -15,9 +15,15 @@ import (
 var (
 	verifDir = "/verif"
 	repoDir  = "/repo"
+	outBase  = "/verif/out"
 )
 
 func main() {
+	// scratch copies (must-fail corpus, experiments): the registered commands never set these
+	if v := os.Getenv("GOVC_REPO"); v != "" {
+		repoDir = v
+		outBase = v + ".out"
+	}
 	if len(os.Args) < 2 {
 		fmt.Fprintln(os.Stderr, "usage: govc check|funcs|effects ...")
 		os.Exit(2)
@@ -205,7 +211,7 @@ func cmdCheck(args []string) int {
 			targets = append(targets, fi)
 		}
 	}
-	outDir := filepath.Join(verifDir, "out", "smt", *prop)
+	outDir := filepath.Join(outBase, "smt", *prop)
 	os.RemoveAll(outDir)
 	os.MkdirAll(outDir, 0755)
 	var items []*solveItem
@@ -322,7 +328,7 @@ func cmdCheck(args []string) int {
 	}
 	solveAll(items, outDir, tmo, 8, second)
 
-	replayDir := filepath.Join(verifDir, "out", "replay", *prop)
+	replayDir := filepath.Join(outBase, "replay", *prop)
 	os.RemoveAll(replayDir)
 	os.MkdirAll(replayDir, 0755)
 
@@ -406,6 +412,26 @@ func cmdCheck(args []string) int {
 			}
 		}
 	}
+	// recorded findings against an assumed clause: the clause is never checked, so the finding is printed whenever the
+	// contracts of this property still carry it (it says: this assumption is known to be false for the recorded inputs)
+	for _, n := range sortedKeys(known) {
+		if !strings.HasPrefix(n, "assumed:") || seen[n] {
+			continue
+		}
+		fn, id := oblFunc(n), ""
+		if j := strings.LastIndex(n, "#"); j >= 0 {
+			id = n[j+1:]
+		}
+		if fi := p.Funcs[fn]; fi != nil && fi.Contract != nil {
+			for _, cl := range fi.Contract.Of("ensures-assumed") {
+				if cl.ID == id && hasTag(cl.Tags, *prop) {
+					fmt.Printf("KNOWN-FINDING: property=%s %s %s\n", *prop, n, known[n].Text)
+					knownHit = append(knownHit, n)
+					break
+				}
+			}
+		}
+	}
 	// expected obligations that were not generated
 	var missing []string
 	for n := range expected {
@@ -438,7 +464,7 @@ func cmdCheck(args []string) int {
 		fmt.Println(v)
 	}
 	wall := time.Since(start).Seconds()
-	if !*noEvidence && *only == "" {
+	if !*noEvidence && *only == "" && os.Getenv("GOVC_REPO") == "" {
 		writeEvidence(*prop, *tier, seed, recs, nObl, nDis, len(violations), funcsUnder, undecided, knownHit, outOfSubset, notes, samples, solverMs, wall, tmo)
 	}
 	fmt.Printf("SUMMARY property=%s functions=%d obligations=%d discharged=%d known-findings=%d undecided=%d violations=%d wall=%.1fs\n", *prop, len(funcsUnder), nObl, nDis, len(knownHit), len(undecided), len(violations), wall)
@@ -486,7 +512,7 @@ func writeReplay(dir, prop string, ob *Obligation, p *Prog) string {
 	rep := map[string]any{
 		"property": prop, "obligation": ob.Name, "kind": ob.Kind, "function": ob.Func, "position": ob.Pos, "clause": ob.Text,
 		"status": ob.Status, "solver": ob.Solver, "solver_output": ob.Output, "model": ob.Model,
-		"query_file": filepath.Join(verifDir, "out", "smt", prop, sanitizeFile(ob.Name)+".smt2"),
+		"query_file": filepath.Join(outBase, "smt", prop, sanitizeFile(ob.Name)+".smt2"),
 	}
 	rep["replay"] = attemptReplay(prop, ob, p, dir)
 	b, _ := json.MarshalIndent(rep, "", " ")
